@@ -110,6 +110,11 @@ def _case(case):
                      case=case, kind="grid"))
     if kind == "pair":
         base, key, v1, v2 = case["base"], case["key"], case["v1"], case["v2"]
+        # every case first computes hashes for two unrelated settings
+        # vectors (a process normally has): a hash must not depend on what
+        # was hashed before, and the case is self-contained for replay
+        the_hash(fresh(), {})
+        the_hash(fresh(), dict(BASES["plateau"]))
         s1 = dict(BASES[base]); s1[key] = v1
         s2 = dict(BASES[base]); s2[key] = v2
         h1, h2 = the_hash(fresh(), s1), the_hash(fresh(), s2)
